@@ -2,6 +2,7 @@
 * Unless explicitly stated otherwise all files in this repository are licensed under the Apache-2.0 License.
 * This product includes software developed at Datadog (https://www.datadoghq.com/). Copyright 2022 Datadog, Inc.
 **/
+use swc_common::DUMMY_SP;
 use swc_ecma_ast::*;
 use swc_ecma_visit::VisitMutWith;
 
@@ -28,11 +29,20 @@ impl AssignAddTransform {
             }
 
             AssignTarget::Simple(left_expr) => {
+                // `x += 1 + 2` is `x + (1 + 2)`, not `x + 1 + 2`
+                let right = if assign.right.is_bin() {
+                    Box::new(Expr::Paren(ParenExpr {
+                        span: DUMMY_SP,
+                        expr: assign.right.clone(),
+                    }))
+                } else {
+                    assign.right.clone()
+                };
                 let binary = Expr::Bin(BinExpr {
                     span,
                     op: BinaryOp::Add,
                     left: left_expr.clone().into(),
-                    right: assign.right.clone(),
+                    right,
                 });
 
                 let result = BinaryAddTransform::to_dd_binary_expr(
